@@ -282,6 +282,7 @@ pub fn run(a: &Args) -> Acc {
     let mut acc = par_run(a, "c15", a.n(1500, 30000), |a, idx, acc| run_case(a, "c15", idx, k, acc));
     let maxp = if a.tier == "thorough" { 14 } else { 11 };
     acc.merge(par_run(a, "c15-walk-sweep", a.n(24, 96), |a, idx, acc| walk_sweep(a, idx, maxp, acc)));
+    acc.merge(par_run(a, "c15-walk-mutation", a.n(3000, 60000), walk_mutation_case));
     acc
 }
 
@@ -341,4 +342,136 @@ pub fn hostile_async_case(a: &Args, idx: u64, acc: &mut Acc) {
     if idx < 2 {
         acc.sample(idx, J::obj().set("async_hostile_case", J::i(idx)).set("config", J::s(cfg.desc())).set("ops", J::arr(trace.iter().map(J::s))));
     }
+}
+
+/// Walk under mutation: entries already listed by the walker are removed before the walker examines them.
+/// The sync iterator yields exactly one error per vanished entry and goes on; the async stream must deliver
+/// the same items under every pending schedule.
+pub fn walk_mutation_case(a: &Args, idx: u64, acc: &mut Acc) {
+    let mut rng = Rng::derive(a.seed, "c15-walk-mutation", idx);
+    let cfg = match rng.below(4) {
+        0 | 1 => Cfg::Mem,
+        2 => Cfg::Alt(Box::new(Cfg::Mem), "/__alt/p".into()),
+        _ => Cfg::Ovl(vec![(Cfg::Mem, "".into()), (Cfg::Mem, "/__lay1".into())]),
+    };
+    // one directory /d with n children (files and empty directories): the walker lists them in one read_dir call
+    let n = rng.range(2, 6);
+    let mut tree: BTreeMap<String, Node> = BTreeMap::new();
+    tree.insert("/d".into(), Node::Dir);
+    for i in 0..n {
+        tree.insert(format!("/d/c{}", i), if rng.chance(1, 3) { Node::Dir } else { Node::File(vec![b'x'; i]) });
+    }
+    let pulls_before = rng.range(1, 2); // items pulled before the removal: "/d" (and one child)
+    let sched: Vec<u8> = match rng.below(4) {
+        0 => vec![0],
+        1 => vec![1],
+        2 => (0..rng.range(3, 9)).map(|_| rng.below(3) as u8).collect(),
+        _ => vec![0, 0, 3],
+    };
+    acc.evaluations += 1;
+    acc.fingerprints.insert(Rng::derive(idx % 5003, &format!("{:?}{}{}", sched, n, pulls_before), cfg.shape().len() as u64).0);
+    // ---- sync
+    let sb = build(&cfg);
+    if crate::prepop::write_tree(&sb.root, "", &tree).is_err() {
+        return;
+    }
+    let sync_items: Result<(Vec<String>, usize), String> = (|| {
+        let mut it = sb.root.walk_dir().map_err(|e| e.to_string())?;
+        let mut oks = vec![];
+        let mut errs = 0usize;
+        let mut pulled = vec![];
+        for _ in 0..pulls_before {
+            match it.next() {
+                Some(Ok(p)) => {
+                    pulled.push(p.as_str().to_string());
+                    oks.push(p.as_str().to_string());
+                }
+                Some(Err(_)) => errs += 1,
+                None => break,
+            }
+        }
+        for k in tree.keys().filter(|k| k.starts_with("/d/") && !pulled.contains(k)) {
+            let p = crate::ops::at(&sb.root, k);
+            let _ = if matches!(tree[k], Node::Dir) { p.remove_dir() } else { p.remove_file() };
+        }
+        for (i, item) in it.enumerate() {
+            match item {
+                Ok(p) => oks.push(p.as_str().to_string()),
+                Err(_) => errs += 1,
+            }
+            if i > 200 {
+                return Err("sync walk does not terminate".into());
+            }
+        }
+        oks.sort();
+        Ok((oks, errs))
+    })();
+    // ---- async
+    let ab = match guard(|| block_on(abuild(&cfg, vec![0]))) {
+        Ok(b) => b,
+        Err(_) => return,
+    };
+    if guard(|| block_on(awrite_tree(&ab.root, "", &tree))).map(|r| r.is_err()).unwrap_or(true) {
+        return;
+    }
+    ab.ctl.set_schedule(sched.clone());
+    let root = ab.root.clone();
+    let tree2 = tree.clone();
+    let async_items: Result<Result<(Vec<String>, usize), String>, _> = guard(|| {
+        block_on(async {
+            use futures::stream::StreamExt;
+            let mut it = root.walk_dir().await.map_err(|e| e.to_string())?;
+            let mut oks = vec![];
+            let mut errs = 0usize;
+            let mut pulled = vec![];
+            for _ in 0..pulls_before {
+                match it.next().await {
+                    Some(Ok(p)) => {
+                        pulled.push(p.as_str().to_string());
+                        oks.push(p.as_str().to_string());
+                    }
+                    Some(Err(_)) => errs += 1,
+                    None => break,
+                }
+            }
+            for k in tree2.keys().filter(|k| k.starts_with("/d/") && !pulled.contains(k)) {
+                let p = crate::asyncside::aat(&root, k);
+                let _ = if matches!(tree2[k], Node::Dir) { p.remove_dir().await } else { p.remove_file().await };
+            }
+            let mut i = 0;
+            while let Some(item) = it.next().await {
+                match item {
+                    Ok(p) => oks.push(p.as_str().to_string()),
+                    Err(_) => errs += 1,
+                }
+                i += 1;
+                if i > 200 {
+                    return Err(format!("async walk does not terminate ({} ok, {} errors so far)", oks.len(), errs));
+                }
+            }
+            oks.sort();
+            Ok((oks, errs))
+        })
+    });
+    acc.steps += 1;
+    let detail = J::obj().set("tag", J::s("c15-walk-mutation")).set("seed", J::i(a.seed)).set("history", J::i(idx)).set("config", J::s(cfg.desc())).set("children", J::i(n as u64)).set("pulled_before_removal", J::i(pulls_before as u64)).set("poll_schedule", J::s(format!("{:?}", sched)));
+    match async_items {
+        Err(p) => acc.violate(Violation { property: "C15", signature: format!("walk-mutation-panic|{}", cfg.shape()), summary: format!("async walk under removal panicked: {}", p.message), detail, order: idx }),
+        Ok(ai) => {
+            // with one item pulled nothing inside /d has been listed yet: both worlds see an empty /d afterwards;
+            // with two pulled, the remaining n-1 listed children vanish: one error each, in both worlds
+            // which child is examined first depends on each world's HashMap order: compare counts, not names
+            let shape = |r: &Result<(Vec<String>, usize), String>| r.as_ref().map(|(o, e)| (o.len(), o.contains(&"/d".to_string()), *e)).map_err(|e| e.clone());
+            if shape(&ai) != shape(&sync_items) {
+                acc.violate(Violation {
+                    property: "C15",
+                    signature: format!("walk-under-removal|pulled{}|{}|{}", pulls_before, if sched == vec![0] { "no-pending" } else { "with-pending" }, cfg.shape()),
+                    summary: format!("walk_dir with listed entries removed mid-walk: sync yields {:?}, async (poll schedule {:?}) yields {:?}", sync_items, sched, ai),
+                    detail,
+                    order: idx,
+                });
+            }
+        }
+    }
+    acc.count("walks_under_removal", 1);
 }
